@@ -145,6 +145,16 @@ def novelty(xlog):
     return out
 
 
+def contract_labels_of_config(config):
+    """labels written in the contract files that belong to one extraction configuration (`@only-config <name>`)"""
+    labs = []
+    for f in sorted(glob.glob(os.path.join(D.VERIF, 'contracts', '*.vpc'))):
+        txt = open(f).read()
+        if re.search(r'^@only-config\s+%s\s*$' % re.escape(config), txt, re.M):
+            labs += LABEL_RE.findall(txt)
+    return labs
+
+
 def load_hint_baseline():
     """contracts/hint_baseline.json, or {} when it is missing or was computed for other contracts (stale)"""
     try:
@@ -323,6 +333,26 @@ def run_all(tier, seed):
         r.pop('stdout_tail', None)
     res['runs'] = runs
     res['gen_path'] = path
+    # ---- second extraction configuration (contracts/extract_secp.json: all features): the rust-secp256k1 back-end, the
+    # cross-back-end lemmas of C11 and the arm of check_spec_reserved_keys that this feature switches to libsecp256k1.
+    # No fallback ladder here: a lost anchor or a tool error inside this unit leaves its obligations UNDECIDED.
+    res['unit_secp'] = None
+    cfg2 = os.path.join(D.VERIF, 'contracts', 'extract_secp.json')
+    if os.path.exists(cfg2):
+        d2 = os.path.join(cdir, 'secp')
+        path2, xlog2, err2 = D.gen(d2, extract_cfg=cfg2)
+        u = {'gen_path': path2, 'err': (str(err2[2])[:600] if err2 else None), 'lost': [], 'diags': [], 'ok': False, 'wall_s': 0.0, 'cmd': ''}
+        if not err2:
+            u['lost'] = [l for l in (xlog2.get('lost', []) + xlog2.get('fuzzy', []) + xlog2.get('renamed', []))
+                         if 'rust_secp256k1' in l or 'check_spec_reserved_keys' in l]
+            ra = one(path2, ['--verify-only-module', 'code::keys::rust_secp256k1'], 'z3 default, all-features configuration: module keys::rust_secp256k1')
+            rb = one(path2, ['--verify-only-module', 'code', '--verify-function', 'check_spec_reserved_keys'], 'z3 default, all-features configuration: check_spec_reserved_keys')
+            u['diags'] = ra['diags'] + rb['diags']
+            u['ok'] = bool(ra.get('json')) and bool(rb.get('json')) and not ra.get('timeout') and not rb.get('timeout')
+            u['wall_s'] = ra['wall_s'] + rb['wall_s']
+            u['cmd'] = ra['cmd']
+            u['verified'] = ((ra.get('json') or {}).get('verification-results', {}).get('verified') or 0) + ((rb.get('json') or {}).get('verification-results', {}).get('verified') or 0)
+        res['unit_secp'] = u
     res['wall_s'] = time.time() - t0
     res['status'] = 'done'
     json.dump(res, open(rfile, 'w'))
@@ -394,6 +424,35 @@ def check(prop, tier, seed):
         if not [f for f in fl_retry if f['kind'] == 'tool']:
             fl_all = [f for f in fl_all if f['fn'] not in rl0] + [f for f in fl_retry if f['fn'] in rl0]
             retried_fns = rl0
+    # ---- second unit (all-features configuration)
+    SECP_TAG = ' [all-features configuration]'
+    unit = res.get('unit_secp')
+    unit_fn_labels = {}
+    unit_c03 = []
+    unit_undecided = None
+    gi2 = None
+    if unit:
+        if unit.get('err') or not unit.get('ok'):
+            unit_undecided = 'the all-features configuration could not be verified: %s' % (unit.get('err') or 'verus gave no result')
+        else:
+            gi2 = GenIndex(unit['gen_path'])
+            in_unit = lambda ln, nm, key: gi2.module_of(ln) == 'code::keys::rust_secp256k1' or nm == 'check_spec_reserved_keys'
+            names = set((key or nm) for (ln, nm, key, src) in gi2.fn_at if in_unit(ln, nm, key))
+            for k, labs in gi2.fn_labels().items():
+                if k in names:
+                    unit_fn_labels[k + SECP_TAG] = labs
+            unit_c03 = [(key + SECP_TAG) for (ln, nm, key, src) in gi2.fn_at if key and src and in_unit(ln, nm, key)]
+            fl2 = failures(gi2, unit['diags'])
+            if [f for f in fl2 if f['kind'] == 'tool']:
+                unit_undecided = 'tool error in the all-features configuration: ' + '; '.join(f['message'][:120] for f in fl2 if f['kind'] == 'tool')[:400]
+            elif unit.get('lost'):
+                unit_undecided = 'contracts of the all-features configuration could not be placed: ' + '; '.join(unit['lost'])[:400]
+            else:
+                for f in fl2:
+                    f = dict(f)
+                    f['fn'] = str(f['fn']) + SECP_TAG
+                    f['_gi'] = 2
+                    fl_all.append(f)
     # tool-level errors (rustc / unsupported construct / VIR error): nothing was decided
     tool = [f for f in fl_all if f['kind'] == 'tool']
     if tool or js is None or js.get('verification-results', {}).get('encountered-vir-error'):
@@ -420,6 +479,7 @@ def check(prop, tier, seed):
             if any(n.endswith('::' + str(fk).split('::')[-1]) for fk in retried_fns):
                 bd[n] = d
     fn_labels = gi.fn_labels()
+    fn_labels.update(unit_fn_labels)
     # labelled obligations of this property: (function key, label)
     obligations = []
     lib_names = set(nm for (ln, nm, key, src) in gi.fn_at if not key and not gi.module_of(ln).startswith('code'))
@@ -437,7 +497,14 @@ def check(prop, tier, seed):
         for (ln, nm, key, src) in gi.fn_at:
             if key and src and re.sub(r'\s+', '', key) not in dropped and not gi.module_of(ln).startswith('sp'):
                 obligations.append((key, 'C03.%s.total' % key))
+    if prop == 'C03':
+        for k in unit_c03:
+            obligations.append((k, 'C03.%s.total' % k))
     obligations = sorted(set(obligations))
+    if unit_undecided and any(lab.split('.')[0] == prop for labs in (unit_fn_labels or {'': contract_labels_of_config('secp')}).values() for lab in labs):
+        undecided(unit_undecided)
+    if unit_undecided and not unit_fn_labels and prop in ('C03', 'C11'):
+        undecided(unit_undecided)
     # a contract whose function is no longer found in the source (renamed / removed) decides nothing: lost anchor, never an alarm
     for l in res.get('extract_log', {}).get('lost', []):
         m = re.match(r'LOST-(FN|ITEMS) (.*?)(?: \(contract in (\S+)\))?$', l)
@@ -462,8 +529,9 @@ def check(prop, tier, seed):
             support_failed.append(f)
             continue
         broken = False   # the proof of the function is broken at a point that names no property: nothing inside it is decided
-        clause_fn = gi.fn_of(f['clause_line']) if f.get('clause_line') else None
-        clause_outside = (clause_fn is None) or ((clause_fn[2] or clause_fn[1]) != fkey)
+        g = gi2 if f.get('_gi') == 2 else gi
+        clause_fn = g.fn_of(f['clause_line']) if f.get('clause_line') else None
+        clause_outside = (clause_fn is None) or ((clause_fn[2] or clause_fn[1]) + (SECP_TAG if f.get('_gi') == 2 else '') != fkey)
         if not labs and 'postcondition not satisfied' in f['message'] and clause_outside:
             # a trait-level clause the impl method is checked against
             labs = list(inherited.get(fkey, []))
@@ -474,7 +542,7 @@ def check(prop, tier, seed):
             props = props_of_labels(labs)
         elif f['kind'] == 'semantic' and (any(m in f['message'] for m in C03_PANIC_MSGS)
                                           or ('precondition not satisfied' in f['message']
-                                              and (f.get('clause_ext') or (clause_outside and not (clause_fn and gi.module_of(f['clause_line']).startswith('code')))))):
+                                              and (f.get('clause_ext') or (clause_outside and not (clause_fn and g.module_of(f['clause_line']).startswith('code')))))):
             # overflow, division by zero, out-of-range index, non-termination, or the precondition of a LIBRARY function
             # (unwrap/expect/index/slice/advance/copy_from_slice: a panic): property C03 and nothing else
             props = ['C03']
@@ -625,7 +693,7 @@ def check(prop, tier, seed):
         'exec_functions_verified_in_run': len(code_ok),
         'vacuity_probe': 'vp_must_fail failed as required',
         'backends': [{'name': r['name'], 'wall_s': round(r['wall_s'], 1), 'verified': (r.get('json') or {}).get('verification-results', {}).get('verified'),
-                      'errors': (r.get('json') or {}).get('verification-results', {}).get('errors')} for r in res['runs'] + ([retry] if retry else [])],
+                      'errors': (r.get('json') or {}).get('verification-results', {}).get('errors')} for r in res['runs'] + ([retry] if retry else [])] + ([{'name': 'all-features configuration (contracts/extract_secp.json): module keys::rust_secp256k1 + check_spec_reserved_keys', 'wall_s': round(unit.get('wall_s', 0), 1), 'verified': unit.get('verified'), 'errors': len([f for f in fl_all if f.get('_gi') == 2])}] if unit else []),
         'functions_decided_by_the_retry_run': sorted(retried_fns),
         'functions_verified_in_a_reduced_hint_configuration': dict((k, st['config']) for k, st in hint_state.items() if st['config'] != 'FULL'),
         'functions_whose_hints_follow_renamed_locals': sorted(renamed_fns),
